@@ -114,6 +114,8 @@ class C25(Property):
 
     # ------------------------------------------------------------------------------------------------------------
     def _setup(self, ctx: Ctx):
+        import logging
+        logging.getLogger("streamflow").setLevel(logging.ERROR)
         self.obs = os.path.join(ctx.scratch, "observer.py")
         with open(self.obs, "w") as f:
             f.write(OBSERVER)
